@@ -1466,3 +1466,134 @@ def isolation_obligations(rep, tier, unit='wiring:isolation'):
             others = sorted(m for m in mod_assigned if not m.startswith(('matcher', '_ctx', '_Position', '_PositionInfo', '_Traversing')) and m not in classes
                             and not any(isinstance(n, ast.Assign) and isinstance(n.value, ast.Call) and ast.unparse(n.value.func) == 'ParsingRule' and ast.unparse(n.targets[0]) == m for n in tree.body))
             rep.add(unit, f'module-level data are only: compiled matchers, rule objects, the context, named tuples {tag}', 'syntactic', not others, detail={'others': others})
+
+
+# ---------------------------------------------------------------------------------------------- A-subst (backing check)
+CHILD_INTERFACE = {
+    # what a parent (or a generator pass) may read of a child: the contract interface ...
+    'compile', 'always_succeeds', 'can_partially_succeed',
+    # ... text for comments / messages only, constants of omitted members, passes over the tree
+    'operand_string', 'constantize', '__dict__', 'program_id', 'precompile', 'skip_ignored', 'extra_id',
+    # ... argument passing (Call) and reference resolution passes
+    'argumentize', 'is_reference', 'is_local', 'defines_local', 'has_params', 'params', 'name', 'complain', 'exprs',
+}
+
+
+def a_subst_obligations(rep, tier, unit='backing:A-subst'):
+    """DYNAMIC backing of A-subst: every attribute of an abstract child that was read from outside the child while the real generator
+    ran over it (all units of this check) belongs to the interface above - so replacing the stub by any real expression with the
+    same flags changes the emitted text only at the marker"""
+    seen = {}
+    for attr, fn, file in sorted(rep.child_access):
+        seen.setdefault(attr, set()).add(f'{file}:{fn}')
+    rep.add(unit, f'{len(rep.child_access)} recorded reads of child attributes were made', 'syntactic', len(rep.child_access) > 0)
+    for attr, where in sorted(seen.items()):
+        rep.add(unit, f'child attribute `{attr}` read by the generator is part of the child interface', 'syntactic', attr in CHILD_INTERFACE,
+                detail={'read_in': sorted(where)})
+
+
+def a_uniform_obligations(rep, tier, unit='backing:A-uniform'):
+    """SYNTACTIC backing of A-uniform: inside _compile (and the two flag methods) of every expression class, the tests of if / while /
+    conditional expressions read only configuration attributes of self, the children's two flags, flags.uses_context, loop positions
+    and the literal value's emptiness - never the concrete literal text or the arity beyond `i + 1 < len(...)` / `len(...) == 1` / emptiness"""
+    import os
+    from pyvc import paths
+    root = os.path.join(paths.REPO, 'sourcer', 'expressions')
+    ok_tokens = ('self.', 'expr.', 'x.', 'flags.uses_context', 'i ', 'i+', 'len(', 'name', 'which', 'cargs', 'needs_', 'is_kw', 'isinstance(', 'member.',
+                 'const_value', 'class_attrs', 'not ', 'None', 'can_partially_succeed', 'always_succeeds', 'out.has_available_blocks', 'arg', 'rows', 'operators',
+                 'associativity', 'exprs', 'params', 'postvisitor', 'child', 'node.')
+    for f in sorted(os.listdir(root)):
+        if not f.endswith('.py') or f in ('__init__.py', 'constants.py'):
+            continue
+        tree = ast.parse(open(os.path.join(root, f)).read())
+        bad = []
+        for fn in [n for n in ast.walk(tree) if isinstance(n, ast.FunctionDef) and n.name in ('_compile', 'always_succeeds', 'can_partially_succeed', 'compile', '_compile_class_body')]:
+            for n in ast.walk(fn):
+                test = n.test if isinstance(n, (ast.If, ast.While, ast.IfExp)) else None
+                if test is None:
+                    continue
+                t = ast.unparse(test)
+                # reads of the literal payload in a test are only allowed as emptiness / 0 / 1 checks
+                payload = [m for m in ('self.value', 'self.pattern', 'self.amount', 'self.min_len', 'self.max_len', 'self.message') if m in t]
+                for m in payload:
+                    rest = t.replace(f'not {m}', '').replace(f'{m} is None', '').replace(f'{m} is not None', '').replace(f'{m} == 0', '').replace(f"{m} == '0'", '') \
+                        .replace(f'{m} == 1', '').replace(f"{m} == '1'", '')
+                    if m in rest:
+                        bad.append(t[:80])
+        rep.add(unit, f'{f}: generator branches read literal payloads only as empty / None / 0 / 1 tests', 'syntactic', not bad, detail={'tests': bad})
+
+
+def rule_wrapper_obligations(rep, tier, unit='wiring:Rule._compile'):
+    """Rule._compile: the implementation `_try_R([_ctx,] _text, _pos, *params)` is a generator whose body is exactly the fragment of the
+    rule's expression followed by `yield (_status, _result, _pos)` - the generator protocol _run relies on: every yield is a request
+    (CALL, f, p) made by a verified fragment, the last one is the final triple"""
+    from contracts.call import _ref
+    bodies = {
+        'abstract body': lambda: Stub(1, False, True),
+        'sequence with a rule reference': lambda: X.Seq(Stub(1, False, True), _ref('A')),
+        'choice over literals': lambda: X.Choice(X.Str('a'), X.Regex('b+')),
+    }
+    for bname, mk in bodies.items():
+        for params in (None, ['p', 'q']):
+            for ctx in (False, True):
+                rule = X.Rule('R', params, mk())
+                src = frag.emit(rule, ctx)
+                tree = ast.parse(src)
+                tag = f'[{bname},params={params},ctx={int(ctx)}]'
+                fn = next((n for n in tree.body if isinstance(n, ast.FunctionDef) and n.name == '_try_R'), None)
+                want_params = (['_ctx'] if ctx else []) + ['_text', '_pos'] + (params or [])
+                rep.add(unit, f'_try_R takes ([_ctx,] _text, _pos, *params) {tag}', 'case_complete', fn is not None and astutil.params_of(fn) == want_params)
+                if fn is None:
+                    continue
+                want = [w for w in ast.parse(frag.emit(mk(), ctx)).body if not (isinstance(w, ast.Assign) and ast.unparse(w.targets[0]).startswith('matcher'))]
+                same = len(fn.body) == len(want) + 1 and all(_same_modulo_ids(a, b) for a, b in zip(fn.body, want)) \
+                    and ast.unparse(fn.body[-1]) == 'yield (_status, _result, _pos)'
+                rep.add(unit, f'body = the fragment of the rule expression + `yield (_status, _result, _pos)` {tag}', 'case_complete', same, detail={'src': src})
+                ys = [y for y in ast.walk(fn) if isinstance(y, ast.Yield)]
+                proto = all(isinstance(y.value, ast.Tuple) and len(y.value.elts) == 3 for y in ys) and \
+                    all(ast.unparse(y.value.elts[0]) == '3' for y in ys[:-1] if y is not fn.body[-1].value)
+                rep.add(unit, f'every yield is a request (CALL, f, p) or the final triple {tag}', 'case_complete', proto)
+
+
+def metadata_obligations(rep, tier, unit='ground:_Metadata'):
+    """_Metadata / ParsedObject.__init__ executed on sentinels (straight-line, parametric in the values: one execution per shape of the
+    field dicts - empty / disjoint / overlapping keys - decides the data flow).  These are the callee contracts that C10, C14 and C16 assume."""
+    from pyvc.rtver import native_namespace
+    for ctx in (False, True):
+        ns = native_namespace(ctx)
+        M, PO = ns['_Metadata'], ns['ParsedObject']
+        a, b, c = object(), object(), object()
+        tag = f'[ctx={int(ctx)}]'
+        m = M()
+        rep.add(unit, f'a new _Metadata is empty, falsy, and answers None for any ordinary name {tag}', 'ground',
+                len(m) == 0 and not m and m.position_info is None and m.anything is None and m._fields == {})
+        m.position_info = a
+        rep.add(unit, f'setting an attribute stores it in the field dict only (no instance attribute) {tag}', 'ground',
+                m.position_info is a and m._fields == {'position_info': a} and list(vars(m)) == ['_fields'] and len(m) == 1 and bool(m))
+        m2 = M(x=b)
+        m2.update(m)
+        rep.add(unit, f'update(other) merges other\'s fields into self (disjoint keys) and leaves other untouched {tag}', 'ground',
+                m2._fields == {'x': b, 'position_info': a} and m._fields == {'position_info': a})
+        m3 = M(position_info=c, y=b)
+        m3.update(m)
+        rep.add(unit, f'update(other): other wins on a shared key, other keys are kept {tag}', 'ground', m3._fields == {'position_info': a, 'y': b})
+        e = M()
+        e.update(m)
+        rep.add(unit, f'updating an EMPTY metadata with m gives exactly the contents of m (what _replace and transform rely on) {tag}', 'ground',
+                e._fields == m._fields and e._fields is not m._fields)
+        cp = m3.copy()
+        rep.add(unit, f'copy() is a new _Metadata with an equal, independent field dict {tag}', 'ground',
+                isinstance(cp, M) and cp is not m3 and cp._fields == m3._fields and cp._fields is not m3._fields)
+        for name in ('__setstate__', '__deepcopy__', '__getstate__x__', '_fields'):
+            blank = M.__new__(M)
+            try:
+                getattr(blank, name)
+                ok = False
+            except AttributeError:
+                ok = True
+            except RecursionError:
+                ok = False
+            rep.add(unit, f'an instance without __dict__ contents raises AttributeError for {name!r} (copy / pickle protocol) {tag}', 'ground', ok)
+        o = PO()
+        rep.add(unit, f'ParsedObject.__init__ gives every object its OWN empty metadata and an empty hash cache {tag}', 'ground',
+                isinstance(o._metadata, M) and len(o._metadata) == 0 and o._hash is None and PO()._metadata is not o._metadata)
